@@ -107,6 +107,28 @@ fn recv() -> Option<String> {
 }
 
 /// Report an event without waiting.
+/// `--shuffle` made enumerable: with REDO_VERIF_SHUFFLE=k in the environment the order is the
+/// k-th permutation (lexicographic, k taken modulo n!) of 0..n instead of a random one.
+pub fn order_override(order: &mut Vec<usize>) {
+    let k = match std::env::var("REDO_VERIF_SHUFFLE").ok().and_then(|v| v.parse::<usize>().ok()) {
+        Some(k) => k,
+        None => return,
+    };
+    let n = order.len();
+    let mut pool: Vec<usize> = (0..n).collect();
+    let mut fact: Vec<usize> = vec![1; n + 1];
+    for i in 1..=n {
+        fact[i] = fact[i - 1].saturating_mul(i);
+    }
+    let mut k = if fact[n] == 0 { 0 } else { k % fact[n] };
+    order.clear();
+    for i in (0..n).rev() {
+        let idx = k / fact[i];
+        k %= fact[i];
+        order.push(pool.remove(idx));
+    }
+}
+
 pub fn note(kind: &str, detail: &str) {
     if !active() {
         return;
